@@ -23,9 +23,14 @@ func appendStackTrace(e *object.PanErr, src *ast.Source) *object.PanErr {
 	// append source info of src
 	out.WriteString(stackTrace)
 
-	e.StackTrace = out.String()
+	// NOTE: the error must be copied because the same error object may be reachable
+	// from elsewhere (a value such as `_` or Either's abstract props can be held by
+	// variables, props or collections): mutating it would leak this evaluation's
+	// stacktrace into every later evaluation
+	traced := *e
+	traced.StackTrace = out.String()
 
-	return e
+	return &traced
 }
 
 func parseSrc(src *ast.Source) string {
